@@ -75,7 +75,13 @@ def build_spec(rng, backend, noline_opt, no_reject=False, risky=False):
         exp[k[0]] = [p, None, kind]
         # the payload is spelled inside a C string literal: every byte of it reaches flex's and m4's scanners as written,
         # except " \ ? and non-printing bytes, which C requires to be escaped
-        return k[0], 'REC(%d, "%s");' % (k[0], c_escape(p))
+        tail = ""
+        if kind.startswith("action-multiline") and rng.chance(45):
+            # an apostrophe that does not open a one-character constant (a // comment, a wide constant) followed by brackets:
+            # flex's action scanner is in its character-constant state there and still has to escape [[ and ]] for m4
+            tail = rng.pick([" // don't reorder: a[b[0]] stays", " // it's [[ here", " // isn't ]] there", " // 'q' and then ]] or [[ too",
+                             " if (0) { int wide = 'a[['; (void) wide; }", " if (0) { int wide = 'b]]'; (void) wide; }"])
+        return k[0], 'REC(%d, "%s");%s' % (k[0], c_escape(p), tail)
 
     def put(stmt_k, text):
         emit(text)
